@@ -209,8 +209,24 @@ def conn_info(log):
     return {"io": io, "est": [list(x) for x in est]}
 
 
-def replay_history(kind, hist, variant, extra=None, dn=None, prefix=None, **stackkw):
-    """Returns the trace {h, ev} of one history on a fresh stack."""
+RECOVER_STATS = {"failures_injected": 0, "not_tried": 0}
+
+
+def fail_once(net, cl, n):
+    """One natural failure of a HashClient's server: the established connection is reset while a request is being sent
+    (or, with no connection yet, the connect is refused).  Nothing reaches the server; the client records the failure."""
+    net.begin_call(-n, {("sendall", 1): "reset", ("connect", 1): "refused"}, "all")
+    try:
+        cl.get("zz-probe")
+    except OSError:
+        return True
+    return False
+
+
+def replay_history(kind, hist, variant, extra=None, dn=None, prefix=None, recover=False, **stackkw):
+    """Returns the trace {h, ev} of one history on a fresh stack.
+    recover (HashClient stacks): before every clock advance of the history the server fails once, so that the call after
+    the advance (longer than retry_timeout) is the one that retries a failed server -- HashClient's other code path."""
     dn = (variant % 2 == 0) if dn is None else dn
     prefix = [b"", b"pfx:"][(variant // 2) % 2] if prefix is None else prefix
     vclock.set_now(START)
@@ -219,6 +235,9 @@ def replay_history(kind, hist, variant, extra=None, dn=None, prefix=None, **stac
     last_cas = {}
     for i, ev in enumerate(hist):
         if ev["e"] == "tick":
+            if recover:
+                # (no OSError = the client did not even try: the server failed a moment ago and retry_timeout has not elapsed)
+                RECOVER_STATS["failures_injected" if fail_once(net, cl, i + 1) else "not_tried"] += 1
             vclock.advance(ev["d"])
             out.append(ev)
             continue
